@@ -724,3 +724,94 @@ def real_supports_batching(v):
     from chuk_mcp.protocol.features.batching import supports_batching
 
     return bool(supports_batching(v))
+
+
+# ---------------------------------------------------------------------------------- version utilities (versioning.py)
+RAISES = "<raises>"
+
+UNICODE_VERSIONS = [
+    "٢٠٢٥-٠٦-١٨", "۲۰۲۵-۰۶-۱۸", "２０２５-０６-１８", "२०२५-०६-१८", "2025-06-1٨", "٢025-06-18", "𝟐𝟎𝟐𝟓-𝟎𝟔-𝟏𝟖", "௨௦௨௫-௦௬-௧௮",
+    "202⁵-06-18", "2025-06-1²", "Ⅻ025-06-18", "2025‐06‐18", "2025−06−18", "2025-06-18​", "﻿2025-06-18", "２０２４-１１-０５",
+]
+WHITESPACE_VERSIONS = [
+    "2025-06-18\n", "2025-06-18\n\n", "\n2025-06-18", "2025-06-18 ", " 2025-06-18", "2025-06-18\r\n", "2025-06-18\r", "2025-06-18\t",
+    "2025-06-18\x0b", "2025-06-18\x0c", "2025-06-18\x85", "2025-06-18 ", "2025-\n06-18", "2025-06-18\x00", "2024-11-05\n", "\n",
+]
+DATE_VERSIONS = [
+    "2025-06-17", "2025-06-18", "2025-06-19", "2025-06-08", "2025-05-31", "2025-07-01", "2025-03-26", "2025-03-25", "2025-03-27",
+    "2024-11-05", "2024-11-04", "2024-11-06", "2024-12-31", "2025-01-01", "2026-01-01", "1999-12-31", "0000-00-00", "9999-99-99",
+    "2025-13-45", "2025-00-00", "0001-01-01", "2025-6-18", "2025-06-8", "25-06-18", "02025-06-18", "2025-006-18", "2025-06-018",
+    "20250618", "2025/06/18", "2025-06", "2025-06-18-01", "-2025-06-18", "+2025-06-18", "2_25-06-18", "2025-0_-18", "", "-", "--",
+    "draft", "latest", "unknown", "None", "2025-06-18T00:00:00Z", "v2025-06-18", "2025.06.18",
+]
+
+
+def version_pool(extra=()):
+    pool = list(dict.fromkeys(list(REAL) + DATE_VERSIONS + WHITESPACE_VERSIONS + UNICODE_VERSIONS + list(extra)))
+    return pool
+
+
+def _call(f, *a):
+    try:
+        r = f(*a)
+    except ValueError:
+        return RAISES
+    except Exception as ex:  # noqa
+        return f"<raises:{type(ex).__name__}>"
+    if isinstance(r, tuple):
+        return list(r)
+    return r
+
+
+def run_versionlib(cases):
+    import copy
+    import warnings
+    from chuk_mcp.protocol.types import versioning as VV
+    from chuk_mcp.protocol.messages.initialize import send_messages as SM
+    from chuk_mcp.protocol.features import batching as B
+
+    PV = VV.ProtocolVersion
+    out = []
+    for c in cases:
+        op = c["op"]
+        if op == "negotiate":
+            cl, sl = list(c["c"]), list(c["s"])
+            o = {"r": _call(VV.negotiate_version, cl, sl)}
+            if cl != c["c"] or sl != c["s"]:
+                o["mutated"] = True
+        elif op == "pair":
+            a, b = c["a"], c["b"]
+            o = {"compatible": _call(VV.validate_version_compatibility, a, b), "compare": _call(PV.compare, a, b),
+                 "newer": _call(PV.is_newer, a, b), "older": _call(PV.is_older, a, b)}
+        elif op == "one":
+            v = c["v"]
+            info = _call(VV.get_version_info, v)
+            if isinstance(info, dict):
+                info = dict(info)
+                if info.pop("version", None) != v:
+                    info["version_member_differs"] = True
+            o = {"valid": _call(PV.validate_format, v), "supported": _call(PV.is_supported, v), "parse": _call(PV.parse_version, v),
+                 "info": info,
+                 # the helpers next to send_initialize and the legacy batching wrapper against the functions they name
+                 "alias_supported": _call(SM.is_version_supported, v), "alias_valid": _call(SM.validate_version_format, v)}
+            with warnings.catch_warnings(record=True) as w:
+                warnings.simplefilter("always")
+                o["alias_batching"] = _call(B._supports_batch_processing, v)
+                o["alias_batching_warned"] = any(issubclass(x.category, DeprecationWarning) for x in w)
+            o["batching"] = _call(B.supports_batching, v)
+        elif op == "consts":
+            before = copy.deepcopy(VV.SUPPORTED_VERSIONS)
+            got = PV.get_all_supported()
+            got2 = SM.get_supported_versions()
+            o = {"latest": _call(PV.get_latest_supported), "minimum": _call(PV.get_minimum_supported), "all": list(got),
+                 "alias_all": list(got2), "alias_latest": _call(SM.get_current_version),
+                 "module_current": VV.CURRENT_VERSION, "module_minimum": VV.MINIMUM_VERSION, "module_list": list(VV.SUPPORTED_VERSIONS)}
+            got.append("mutated-by-the-caller")
+            got2.insert(0, "mutated-by-the-caller")
+            o["copy_is_independent"] = VV.SUPPORTED_VERSIONS == before and PV.get_all_supported() == before
+        elif op == "format":
+            o = {"r": _call(VV.format_version_list, list(c["vs"]))}
+        else:
+            raise ValueError(op)
+        out.append(o)
+    return out
